@@ -149,7 +149,7 @@ def compare_docs(op, in_doc, out_doc):
     else:
         if in_doc.get("version") != out_doc.get("version"):
             viols.append((["metadata", "version"], "version %r -> %r" % (in_doc.get("version"), out_doc.get("version"))))
-        if list(in_doc["contracts"].keys()) != list(out_doc.get("contracts", {}).keys()):
+        if set(in_doc["contracts"].keys()) != set(out_doc.get("contracts", {}).keys()):      # (key order of a JSON object carries no meaning)
             viols.append((["metadata", "contract-keys"], "contract keys %r -> %r" % (
                 list(in_doc["contracts"].keys()), list(out_doc.get("contracts", {}).keys()))))
             return viols, stats
@@ -180,7 +180,7 @@ def compare_asm(a, b, k, sk, desc, stats, path=""):
         return viols
     if da is None:
         return viols
-    if list(da.keys()) != list(db.keys()):
+    if set(da.keys()) != set(db.keys()):
         viols.append((["metadata", ".data-keys"], "%s%s: .data keys %r -> %r" % (k, path, list(da), list(db))))
         return viols
     for dk in da:
